@@ -4,6 +4,7 @@ import json
 import suite_q
 import suite_o
 import suite_k
+import suite_e
 
 TRUSTED_BASE = [
     "Coq 8.16.1 kernel; vm_compute for Examples / refuted witnesses; no native_compute",
@@ -74,6 +75,18 @@ PROPS = {
               "33399 in thorough), random deeper trees (at most two XOR/EQUIVALENCE: their CNF is exponential), "
               "arithmetic/aggregate trees, malformed shapes. oracle: complete truth tables. non-trivial = has an operator"),
         assumptions=["trees with more than two XOR/EQUIVALENCE nodes or more than 24 operators are not generated at random depth (minutes per case in the implementation)"],
+    ),
+    "C20": dict(
+        props="Props/C20.v", tables=["core"],
+        suites=[suite_e.run],
+        rule=("suite Q2: ==, !=, hash(), use as set/dict keys on pairs (m, m') of independently built models, and the "
+              "full pairwise ==/hash/< matrices of their features, relations and constraints, vs the model; m' = an "
+              "identical rebuild, an order-permuted copy (children, relations, constraints shuffled), or a single-point "
+              "edit (rename, cardinality, move, re-group, operator/operand, root) and permuted copies of the edits; models "
+              "with same-cardinality sibling groups are forced. oracle: an independent canonical form decides which pairs "
+              "must be equal. non-trivial = at least two features"),
+        assumptions=["str.lower() is ASCII lowering on the generated names (ASCII only); hash collisions between different "
+                     "hash keys are assumed not to occur (64-bit)"],
     ),
 }
 
